@@ -155,6 +155,43 @@ def _sub_type(c):
     return "?"
 
 
+_BE_WIDTH = {"u8": 1, "i8": 1, "u16": 2, "i16": 2, "u32": 4, "i32": 4, "u64": 8, "i64": 8, "u128": 16, "i128": 16, "f32": 4, "f64": 8}
+
+
+def _be_pieces(payload):
+    """[(int type, value term)] when `payload` is the big-endian bytes of one or more fixed-width values, complete and in
+    order: `&v.to_be_bytes()` or an array literal assembled from all the bytes of each `x.to_be_bytes()`; else None"""
+    t = strip_refs(payload)
+    while isinstance(t, tuple) and t[0] == "cast" and t[1] == "Unsize":
+        t = strip_refs(t[4])
+
+    def be(x):
+        x = strip_refs(x)
+        if isinstance(x, tuple) and x[0] == "call" and x[1].endswith("::to_be_bytes") and x[1].split("::")[0] in _BE_WIDTH and len(x[3]) == 1:
+            return x[1].split("::")[0], x[3][0]
+        return None
+    if be(t):
+        return [be(t)]
+    if not (isinstance(t, tuple) and t[0] == "agg" and t[1] == "array" and t[4]):
+        return None
+    out, i, el = [], 0, t[4]
+    while i < len(el):
+        e = strip_refs(el[i])
+        if not (isinstance(e, tuple) and e[0] == "index" and be(e[1])):
+            return None
+        ty, v = be(e[1])
+        n = _BE_WIDTH[ty]
+        for k in range(n):
+            if i + k >= len(el):
+                return None
+            ek = strip_refs(el[i + k])
+            if not (isinstance(ek, tuple) and ek[0] == "index" and repr(ek[1]) == repr(e[1]) and guards.rng(ek[2]) == (k, k)):
+                return None
+        out.append((ty, v))
+        i += n
+    return out
+
+
 def writer_paths(body, crate):
     """successful writer paths as lists of events:
        ('w', kind, term) | ('sub', type, term) | ('seqw', term) ; plus .loop flag"""
@@ -175,7 +212,12 @@ def writer_paths(body, crate):
                 continue
             if c[0] != "call" or c[2].endswith(("Try>::branch", "from_residual")):
                 continue
-            if c[3].startswith(W_PREFIX):
+            if c[3] == W_PREFIX + "bytes" and len(c[5]) > 1 and _be_pieces(c[5][1]):
+                # write_bytes(&[a.to_be_bytes()[0], .., b.to_be_bytes()[0], ..]) is write_<A>(a); write_<B>(b) (P1: the fixed-width
+                # writers are write_bytes(&v.to_be_bytes()))
+                for ty_, v_ in _be_pieces(c[5][1]):
+                    ev.append(("w", ty_, v_))
+            elif c[3].startswith(W_PREFIX):
                 ev.append(("w", c[3][len(W_PREFIX):], c[5][1] if len(c[5]) > 1 else None))
             elif c[3] == "BinarySerializer::serialize":
                 if _sub_type(c) != "()":             # the unit codec writes nothing: `().serialize(ctx)` is no item
